@@ -41,7 +41,7 @@ CFG = dict(
     prop="C01", level="proof", harness="c01",
     props_files=["theories/Props/C01.v"], corr_file="theories/Corr/C01.v", corr_module="Corr.C01",
     extra_targets=["theories/Lexer/Tables.vo"],
-    groups={"lex": True},
+    groups={"lex": False},
     pre=_pre, shard=40,
     design_ref="DESIGN.md 6.1, notes/C01.md",
     technique="Coq proof about a Gallina model of Lexer::lex (string input) with the regex engines as oracles under monitored contracts "
